@@ -17,7 +17,7 @@ RULE += ('; second batch: graphs with 1-2 connection choices (half of them with 
          'admissible assignment x one valid connection set per connection choice')
 PARTIAL = ['for graphs with connection choices the instance is compared as node set + connection edges (no decode_witness)']
 CONN_CLAUSES = ('processor-raises', 'decode-raises', 'decoded-instance-not-final-or-infeasible', 'decoded-architecture-not-in-model',
-                'architectures-differ', 'two-rows-one-architecture')
+                'architectures-differ', 'two-rows-one-architecture', 'fix-or-free-raises')
 batches = _proc.add_conn_batch(_proc.make_batches('C01', ['complete', 'fast'], 1200, 6000, cons_prob=0.25), 'C01')
 run_case = _proc.wrap_run_case(_proc.make_run_case(CLAUSES), CONN_CLAUSES)
 compare = _proc.compare
